@@ -99,6 +99,9 @@ func compareInt(i *SexpInt, expr Sexp) (int, error) {
 	case *SexpInt:
 		return cmpInt64(i.Val, e.Val), nil
 	case *SexpFloat:
+		if math.IsNaN(e.Val) {
+			return 2, nil // unordered, as compareFloat reports it
+		}
 		return signumFloat(float64(i.Val) - e.Val), nil
 	case *SexpChar:
 		return signumInt(i.Val - int64(e.Val)), nil
@@ -124,6 +127,9 @@ func compareChar(c *SexpChar, expr Sexp) (int, error) {
 	case *SexpInt:
 		return signumInt(int64(c.Val) - e.Val), nil
 	case *SexpFloat:
+		if math.IsNaN(e.Val) {
+			return 2, nil
+		}
 		return signumFloat(float64(c.Val) - e.Val), nil
 	case *SexpChar:
 		return signumInt(int64(c.Val) - int64(e.Val)), nil
